@@ -341,14 +341,14 @@ async fn exchange_cases(addr: SocketAddr, kind: &str, prop: &str, out: &Mutex<Ve
                         for f in wire_faults(&r) {
                             out.lock().unwrap().push(("app:stream-not-decryptable-as-frames".into(), format!("{what}: {f}"), replay.clone()));
                         }
-                        if kinds(&r) != want {
+                        if common::one_cookie_request(&kinds(&r)) != common::one_cookie_request(&want) {
                             out.lock().unwrap().push(("app:encrypted-exchange-broken".into(), format!("{what} was answered with {:?} ({:?}, {}); expected {want:?}", kinds(&r), r.error, r.ended), replay.clone()));
                         }
                     }
                     "C06" => {
                         if let Some(f) = order_fault(&r) {
                             out.lock().unwrap().push(("app:packet-out-of-protocol-order".into(), format!("{what}: {f}"), replay.clone()));
-                        } else if kinds(&r) != want {
+                        } else if common::one_cookie_request(&kinds(&r)) != common::one_cookie_request(&want) {
                             out.lock().unwrap().push(("app:login-not-answered-in-protocol-order".into(), format!("{what} was answered with {:?} ({:?}, {}); the order is {want:?}", kinds(&r), r.error, r.ended), replay.clone()));
                         }
                     }
